@@ -127,6 +127,33 @@ def tables_rule(ctx, lib):
                         bad = f"row {ri} {row}: normal of the triple ({t0},{t1},{t2}) points inward: interior points would be rejected"
                         break
                 planes.setdefault(plane_key(n, p0), []).append(ri)
+            if bad is None and attr == "faces":
+                # each row must be a valid element of the boundary type, numbered so that its normal points outward
+                # (MeshIO.Surface_reconstruction builds the boundary groups from these rows)
+                for ri, row in enumerate(rows):
+                    nv = 3 if len(row) in (3, 6) else 4
+                    verts = [X[a] for a in row[:nv]]
+                    nrm = cross(sub(verts[1], verts[0]), sub(verts[-1] if nv == 3 else verts[3], verts[0]))
+                    if nv == 3:
+                        nrm = cross(sub(verts[1], verts[0]), sub(verts[2], verts[0]))
+                    if dot(nrm, sub(centroid, verts[0])) >= 0:
+                        bad = f"row {ri} {row}: vertex order gives an inward normal: the reconstructed boundary element is flipped (the integral of the normal over the boundary no longer vanishes)"
+                        break
+                    btype = {3: "TRI3", 6: "TRI6", 4: "QUAD4", 8: "QUAD8", 9: "QUAD9"}.get(len(row))
+                    if btype is None:
+                        bad = f"row {ri} {row}: {len(row)} nodes is not a surface element type"
+                        break
+                    bd = lib.get(btype)
+                    lin = lib.get("TRI3" if nv == 3 else "QUAD4")
+                    Nl = [lin.tables["N"][1].data[a] for a in range(nv)]
+                    for k, node in enumerate(row):
+                        env = dict(zip(bd.vars, bd.coords[k]))
+                        img = [sum((Nl[a].eval(env) * verts[a][c] for a in range(nv)), Q(0)) for c in range(3)]
+                        if any(img[c] != X[node][c] for c in range(3)):
+                            bad = f"row {ri} {row}: node {node} (position {k}) is not where local node {k} of a {btype} with these vertices lies"
+                            break
+                    if bad:
+                        break
             if bad is None:
                 if len(planes) != NFACES[ed.shape] or any(len(v) != 1 for v in planes.values()) or len(rows) != NFACES[ed.shape]:
                     bad = f"{len(rows)} rows on {len(planes)} distinct planes; a {ed.shape} has {NFACES[ed.shape]} faces"
